@@ -77,17 +77,18 @@ Theorem emptiness_positive_costs_no_pods :
 Proof. exact emptiness_no_pods_partial_l. Qed.
 Print Assumptions emptiness_positive_costs_no_pods.
 
-(* The multi-node search (binary search over prefixes, same-type filter) only returns a command that one of its probes
+(* For ANY evaluator [ap] (the no-op one, or the balanced one of Balanced NodePools, which can only reject):
+   The multi-node search (binary search over prefixes, same-type filter) only returns a command that one of its probes
    produced, for a prefix of at least two candidates; the price guarantees carry over to the filtered option list. *)
 Theorem multi_node_strictly_cheaper_partial :
-  forall flag cs sims k r opts,
-  first_n flag cs sims = Some (k, Replace r opts) -> sim_ok (sims k) -> sim_reserved_pinned (sims k) ->
+  forall ap flag cs sims k r opts,
+  first_n_ev ap flag cs sims = Some (k, Replace r opts) -> sim_ok (sims k) -> sim_reserved_pinned (sims k) ->
   forall it, List.In it opts -> cheaper r (sum_prices (firstn k cs)) it /\ od_safe r (sum_prices (firstn k cs)) it.
 Proof. exact multi_strictly_cheaper_partial_l. Qed.
 Print Assumptions multi_node_strictly_cheaper_partial.
 
 Theorem multi_node_pods_have_home :
-  forall flag cs sims k d, first_n flag cs sims = Some (k, d) -> wf_sim (sims k) ->
+  forall ap flag cs sims k d, first_n_ev ap flag cs sims = Some (k, d) -> wf_sim (sims k) ->
   (2 <= k)%nat /\ (length (s_new (sims k)) <= 1)%nat /\
   forall p, List.In p (s_pods (sims k)) -> pp_origin p = OnCandidate ->
     good_place (length (s_new (sims k))) (pp_where p) = true.
@@ -96,7 +97,7 @@ Print Assumptions multi_node_pods_have_home.
 
 (* The single-node loop returns the decision computed for one of the candidates it tried. *)
 Theorem single_node_command :
-  forall flag l c d, single flag l = Some (c, d) -> exists s, List.In (c, s) l /\ compute flag [c] s = d /\ d <> NoOp.
+  forall ap can_pass flag l c d, single_ev ap can_pass flag l = Some (c, d) -> exists s, List.In (c, s) l /\ compute flag [c] s = d /\ d <> NoOp.
 Proof. exact single_inv. Qed.
 Print Assumptions single_node_command.
 
